@@ -51,6 +51,11 @@ pub fn leaves() -> Vec<Q> {
         Q::TermSet(vec!["b".into()]),
         Q::Exists("num".into()),
         Q::Exists("k".into()),
+        // multi-valued fast field with documents holding no value: ranges covering every value present
+        Q::Range("mnum".into(), inc(V::U(0)), Bound::Unbounded),
+        Q::Range("mnum".into(), inc(V::U(0)), inc(V::U(2))),
+        Q::Range("mnum".into(), inc(V::U(1)), inc(V::U(1))),
+        Q::Exists("mnum".into()),
         Q::All,
         Q::Empty,
         Q::Fuzzy { term: "a".into(), dist: 1, transpose: true, prefix: false },
